@@ -318,7 +318,11 @@ func (g *c08Gen) idxLeg() FLeg {
 	if g.cfg.wildcard && g.pick(4) == 0 {
 		paths = c08WildPaths
 	}
-	p := paths[g.pick(len(paths))]
+	return g.idxLegOn(paths[g.pick(len(paths))])
+}
+
+// idxLegOn draws an EQUAL / *_IN leg on the given body path.
+func (g *c08Gen) idxLegOn(p string) FLeg {
 	l := FLeg{Path: p, Label: g.label(true)}
 	intIn := func() bool { // integer IN lists are integer compare values
 		if g.cfg.floatInt {
@@ -983,31 +987,9 @@ func runC08(s C08Scenario) (out pbt.Outcome) {
 					classes["patch-refused"] = true
 					continue // refused (non-msgpack body, non-map intermediate …): nothing changed
 				}
-				if r.kind != "map" {
-					o := pbt.Outcome{Skip: true}
+				if !c08ModelPatch(r, m.Path, m.V) {
+					o := pbt.Outcome{Skip: true} // the server accepted a SET the model cannot follow (non-map body / non-map intermediate)
 					return &o
-				}
-				parts := strings.Split(m.Path, ".")
-				if len(parts) == 1 {
-					r.fields[parts[0]] = m.V
-				} else {
-					parent, ok := r.fields[parts[0]]
-					if ok && parent.K != "map" {
-						o := pbt.Outcome{Skip: true} // server accepted a SET through a non-map: not modelled
-						return &o
-					}
-					nm := Val{K: "map"}
-					done := false
-					for _, kv := range parent.Map {
-						if kv.K == parts[1] {
-							kv.V, done = m.V, true
-						}
-						nm.Map = append(nm.Map, kv)
-					}
-					if !done {
-						nm.Map = append(nm.Map, KV{parts[1], m.V})
-					}
-					r.fields[parts[0]] = nm
 				}
 				classes["has-patch"] = true
 			case "del":
